@@ -369,7 +369,13 @@ def check_pair(ctx, rng, edit_name, old_d, new_d, expected, element, extra, dire
     fails = []
     old_sdl, new_sdl = gs.to_sdl(old_d), gs.to_sdl(new_d)
     try:
-        ch = changes(old_sdl, new_sdl)
+        from py_gql import build_schema
+        o_live, n_live = build_schema(old_sdl), build_schema(new_sdl)
+        ch = [tuple(c) for c in diff_live_unsorted(o_live, n_live)]
+        # the same two schema OBJECTS are diffed again after everything else this run does (other diffs,
+        # clones, transforms, validation, execution): the report is a function of the two schemas only
+        ctx.later("diff_schema:" + edit_name, lambda o=o_live, n=n_live: sorted(diff_live_unsorted(o, n)), sorted(ch),
+                  {"old_sdl": old_sdl, "new_sdl": new_sdl})
     except Exception as e:  # the edit produced an invalid schema or the differ raised
         from py_gql.exc import GraphQLError
         if isinstance(e, GraphQLError) or type(e).__name__ in ("SchemaError", "SchemaValidationError", "SDLError"):
@@ -644,6 +650,11 @@ def strip_enum_defaults(d):
             if gs.ty_base(a["type"]) in users:
                 a["default"] = None
     return d
+
+
+def diff_live_unsorted(o, n, min_severity=None):
+    from py_gql.schema.differ import diff_schema
+    return [(type(c).__name__, int(c.severity), str(c.message)) for c in diff_schema(o, n, min_severity=min_severity)]
 
 
 def diff_live(o, n):
